@@ -229,6 +229,29 @@ def run(ctx):
                               {"kind": "history", "calls": [[k2, os.path.basename(p2)] for k2, p2 in h], "step": step,
                                "files": {os.path.basename(cpath): open(cpath).read()[:600], os.path.basename(good): open(good).read()[:1200]}},
                               impl=str(canon_result(k, r))[:300], model=str(canon_result(k, ref[(k, pth)]))[:300], clause="independence from earlier reads / conversions")
+    # a file that sets masses and widths of ordinary resonances through `<name>_mass` / `<name>_width` parameters, then files
+    # that use the same resonances without such parameters: what a file says about a particle stays with that file
+    mtext = open(pool[0]).read().rstrip("\n") + "\n" + "".join(
+        f"{nm}_{q}   {fl_} {v} {e}\n" for nm, q, fl_, v, e in (("rho(770)0", "mass", 2, "770", "1"), ("rho(770)0", "width", 2, "150", "2"), ("K*(892)bar0", "mass", 0, "899.9", "0.5"),
+                                                      ("K*(892)bar0", "width", 2, "47.3", "0.1"), ("K(1)(1270)bar-", "mass", 2, "1289.81", "1.75"), ("omega(782)0", "mass", 2, "780", "0.1")))
+    mpath = os.path.join(tmp, "with_masses.txt")
+    open(mpath, "w").write(mtext)
+    mhists = [[["cpp", mpath], ["cpp", pool[0]], ["py", pool[0]]], [["read:GooFitPyChain", mpath], ["py", pool[1 % len(pool)]], ["cpp", pool[2 % len(pool)]]],
+              [["py", mpath], ["read:AmplitudeChain", pool[0]], ["cpp", pool[3 % len(pool)]]]]
+    with ThreadPoolExecutor(max_workers=6) as ex:
+        mouts = list(ex.map(worker, mhists))
+    for h, out in zip(mhists, mouts):
+        for step, ((k, pth), r) in enumerate(zip(h, out)):
+            if pth == mpath:
+                continue
+            res.case()
+            res.count("after_a_file_with_mass_parameters")
+            if canon_result(k, r) != canon_result(k, ref[(k, pth)]):
+                a_, b_ = canon_result(k, r), canon_result(k, ref[(k, pth)])
+                diff = [x for x in (a_[1][0] if a_[0] == "ok" and k in ("cpp", "py") else []) if b_[0] == "ok" and x not in b_[1][0]][:4]
+                res.violation("a call gives a different result after a file that sets resonance masses / widths was read in the same process",
+                              {"kind": "history", "calls": [[k2, os.path.basename(p2)] for k2, p2 in h], "step": step, "mass_lines": mtext.split("\n")[-7:-1]},
+                              impl=diff or str(a_)[:300], clause="independence from earlier reads / conversions")
     # a conversion done step by step (read with a reader class, then ask that class for the introduction, the parameters and the
     # amplitude blocks), with reads of other files by the other reader classes in between: the output is that of the file read
     fa_, fb_, fc_ = pool[0], pool[1 % len(pool)], pool[2 % len(pool)]
